@@ -10,28 +10,33 @@ import PygProofs.Lemmas.PivotLemmas
 namespace Pyg
 
 /-- is row `i` (re)computed?  (line 336: `rin or rex`) -/
-def rowRuns (ds : Table) (hasData : Bool) (today : Int) (i : Nat) : Bool :=
-  !hasData || runExpiry today (ds.jcellAt "expiry" i)
+def rowRuns (ifNone : Bool) (ds : Table) (hasData : Bool) (today : Int) (i : Nat) : Bool :=
+  !hasData || (ifNone && (ds.jcellAt "data" i).isNone) || runExpiry today (ds.jcellAt "expiry" i)
 
-theorem evalRows_values (f : List Cell → Val) (params : List String) (ds : Table) (hasData : Bool)
-    (today : Int) (ids : List Nat) :
-    (evalRows f params ds hasData today ids).1 = ids.map fun i =>
-      if rowRuns ds hasData today i then f (rowArgs ds params i) else .cell (ds.jcellAt "data" i) := by
+theorem evalRows_values (ifNone : Bool) (f : List Cell → Val) (params : List String) (ds : Table)
+    (hasData : Bool) (today : Int) (ids : List Nat) :
+    (evalRows ifNone f params ds hasData today ids).1 = ids.map fun i =>
+      if rowRuns ifNone ds hasData today i then f (rowArgs ds params i)
+      else .cell (ds.jcellAt "data" i) := by
   induction ids with
   | nil => rfl
   | cons i is ih =>
-    simp only [evalRows, List.map_cons, rowRuns]
-    split <;> simp_all [rowRuns]
+    have hcond : (!hasData || (ifNone && (ds.jcellAt "data" i).isNone) ||
+        runExpiry today (ds.jcellAt "expiry" i)) = rowRuns ifNone ds hasData today i := rfl
+    simp only [evalRows, hcond, List.map_cons]
+    cases hr : rowRuns ifNone ds hasData today i <;> simp [ih]
 
-theorem evalRows_log (f : List Cell → Val) (params : List String) (ds : Table) (hasData : Bool)
-    (today : Int) (ids : List Nat) :
-    (evalRows f params ds hasData today ids).2 =
-      (ids.filter (rowRuns ds hasData today)).map (rowArgs ds params) := by
+theorem evalRows_log (ifNone : Bool) (f : List Cell → Val) (params : List String) (ds : Table)
+    (hasData : Bool) (today : Int) (ids : List Nat) :
+    (evalRows ifNone f params ds hasData today ids).2 =
+      (ids.filter (rowRuns ifNone ds hasData today)).map (rowArgs ds params) := by
   induction ids with
   | nil => rfl
   | cons i is ih =>
-    simp only [evalRows, List.filter_cons, rowRuns]
-    split <;> simp_all
+    have hcond : (!hasData || (ifNone && (ds.jcellAt "data" i).isNone) ||
+        runExpiry today (ds.jcellAt "expiry" i)) = rowRuns ifNone ds hasData today i := rfl
+    simp only [evalRows, hcond, List.filter_cons]
+    cases hr : rowRuns ifNone ds hasData today i <;> simp [ih]
 
 theorem mapM_ok {α β} (g : α → β) (xs : List α) :
     xs.mapM (fun x => (Except.ok (g x) : Res β)) = .ok (xs.map g) := by
